@@ -11,6 +11,7 @@ Decided clauses:
   * single completion site; completion frees the record after the user callback; one-by-one token order
 Not decided: once-per-thread and completion-after-all under interleavings.
 """
+import itertools
 from rules import driver, core, r_path, r_mpt, r_ts
 from rules.core import walk, key, const_val
 from props import tp, fixtures
@@ -597,6 +598,40 @@ def self_once(rep, u):
     return n
 
 
+def slot_lookup(rep, fname="tp_thread_get"):
+    """R-SPEC slot-lookup: every "is the originator one of the pool's workers" test of the broadcast code is spelt
+    `tp_thread_get(tp, tpt_get_num(src)) == src`.  It means that only if the lookup answers NULL for every number that is not a
+    worker's - in particular for `threads_max`, the slot of the pool's virtual thread, which lies inside the array.  The lookup
+    is evaluated for numbers below, at and above the configured count."""
+    from rules import r_stride
+    us0 = tp.units((tp.TP_C,))
+    rep.use_units(us0)
+    u0 = us0[tp.TP_C]
+    fn = tp.need(u0, fname)
+    rep.functions.add(fn.name)
+    TP, ARR = 0x10000, 0x20000
+    tpn, num = fn.params[0]["n"], fn.params[1]["n"]
+    n = 0
+    bad = undec = None
+    for tmax, k in itertools.product((1, 4, 16), (0, -1, 0.5, 1, 2, 1000)):
+        i = {0: 0, -1: tmax - 1, 0.5: tmax // 2, 1: tmax, 2: tmax + 1, 1000: tmax + 1000}[k]
+        pe = r_stride.PE(u0)
+        ev, ret = pe.trace(fn, {tpn: TP, num: i, tpn + "->s.threads_max": tmax, tpn + "->threads": ARR})
+        what = "%d workers, thread number %d" % (tmax, i)
+        if isinstance(ret, str):
+            undec = undec or "%s: %s" % (what, ret)
+            continue
+        n += 1
+        if i >= tmax and ret != 0:
+            bad = bad or ("%s: the lookup answers a slot instead of NULL%s" % (
+                what, " - slot %d is the pool's virtual thread, which then counts as a broadcast target/originator worker" % tmax if i == tmax else ""))
+        elif i < tmax and (not isinstance(ret, int) or ret == 0):
+            bad = bad or "%s: the lookup answers %s for a worker's number" % (what, ret)
+    desc = "tp_thread_get answers a slot exactly for numbers below threads_max; the virtual thread's slot (number threads_max) and anything above give NULL"
+    (rep.violated if bad else rep.undecided if undec else rep.proved)("R-SPEC", fn, "slot-lookup", desc, bad or undec or "%d classes" % n)
+    return n
+
+
 def run(rep, tier):
     us = tp.units((tp.MSG_C,))
     rep.use_units(us)
@@ -609,6 +644,7 @@ def run(rep, tier):
     rep.floor("completion post sites", completion_destination(rep, u), 2)
     rep.floor("self-serving flag combinations", self_once(rep, u), 4)
     rep.floor("countdown initialisations", countdown_initial(rep, u), 2)
+    rep.floor("slot lookup classes", slot_lookup(rep), 18)
     rep.floor("countdown accesses", n1, 6)
     rep.floor("countdown release sites", n2, 1)
     rep.floor("cbsend paths from allocation", n3, 5)
